@@ -179,11 +179,17 @@ impl TData {
 /// handed out is only valid while the holder lives (the harness guarantees that).
 pub struct StaticHolder {
     keep: Vec<Box<dyn Any>>,
+    /// identical sub-trees share one node (as identical Rust types share one SCHEMA constant)
+    shared: std::collections::HashMap<Tree, usize>,
+    share: bool,
 }
 
 impl StaticHolder {
     pub fn new() -> Self {
-        StaticHolder { keep: vec![] }
+        StaticHolder { keep: vec![], shared: Default::default(), share: true }
+    }
+    pub fn without_sharing() -> Self {
+        StaticHolder { keep: vec![], shared: Default::default(), share: false }
     }
     fn one<T: 'static>(&mut self, v: T) -> &'static T {
         let b = Box::new(v);
@@ -205,6 +211,19 @@ impl StaticHolder {
     }
 
     pub fn build(&mut self, t: &Tree) -> &'static DataModelType {
+        if self.share {
+            if let Some(p) = self.shared.get(t) {
+                return unsafe { &*(*p as *const DataModelType) };
+            }
+        }
+        let r = self.build_fresh(t);
+        if self.share {
+            self.shared.insert(t.clone(), r as *const DataModelType as usize);
+        }
+        r
+    }
+
+    fn build_fresh(&mut self, t: &Tree) -> &'static DataModelType {
         let v = match t {
             Tree::Bool => DataModelType::Bool,
             Tree::I8 => DataModelType::I8,
@@ -673,6 +692,7 @@ fn node_mutations(t: &Tree) -> Vec<(MutClass, Tree)> {
 
 // ------------------------------------------------------------------ generator
 
+const TREE_NAMES_SPECIAL: &[&str] = &["it's", "C:\\temp", "tab\there", "quo\"ted", "new\nline", "a\u{7f}b", "Kb", "KB", "kb", "Ω", "größe", "温度"];
 const TREE_NAMES: &[&str] = &[
     "", "a", "b", "x", "y", "k", "q", "e", "m", "G", "O", "g", "qq", "qqq", "id", "len", "data", "Point", "Result<T, E>", "Range<T>",
     "Foo", "Bar", "Ok", "Err", "héllo", "名前", "naïve_field", "with space", "A", "B", "C", "zz",
@@ -682,6 +702,10 @@ pub fn arb_tree_name() -> BoxedStrategy<String> {
     prop_oneof![
         20 => any::<u16>().prop_map(|r| TREE_NAMES[crate::gen::pick_idx(r, TREE_NAMES.len())].to_string()),
         1 => (any::<u8>(), 100usize..300).prop_map(|(c, n)| ((b'a' + c % 26) as char).to_string().repeat(n)),
+        2 => any::<u16>().prop_map(|r| TREE_NAMES_SPECIAL[crate::gen::pick_idx(r, TREE_NAMES_SPECIAL.len())].to_string()),
+        // long names mixing one-, two-, three- and four-byte characters at arbitrary offsets
+        1 => proptest::collection::vec(prop_oneof![4 => Just('x'), 1 => Just('é'), 1 => Just('名'), 1 => Just('\u{1F600}')], 20..200)
+            .prop_map(|cs| cs.into_iter().collect::<String>()),
         2 => "[a-zA-Z_][a-zA-Z0-9_]{0,8}".prop_map(|s| s),
     ]
     .boxed()
@@ -801,6 +825,83 @@ pub fn arb_same_shape_pair(cfg: TreeCfg) -> BoxedStrategy<Tree> {
                 2 => Tree::Enum("Either".into(), vec![("L".into(), TData::Newtype(Box::new(a))), ("R".into(), TData::Newtype(Box::new(b)))]),
                 _ => Tree::Map(Box::new(Tree::String), Box::new(Tree::Tuple(vec![filler, a, Tree::Seq(Box::new(b))]))),
             }
+        })
+        .boxed()
+}
+
+/// A long run of one repeated element type followed by types that occur nowhere before
+/// (`struct Frame { payload: [u8; 256], crc: Crc32, kind: Kind }`).
+pub fn arb_array_then_types(cfg: TreeCfg) -> BoxedStrategy<Tree> {
+    (100usize..300, 0..LEAVES.len(), proptest::collection::vec((arb_tree_name(), arb_tree(cfg)), 1..4), 0..3u8)
+        .prop_map(|(n, li, rest, form)| {
+            let arr = Tree::Tuple(vec![LEAVES[li].clone(); n]);
+            match form {
+                0 => {
+                    let mut fs = vec![("payload".to_string(), arr)];
+                    fs.extend(rest);
+                    Tree::Struct("Frame".into(), TData::Struct(fs))
+                }
+                1 => {
+                    let mut ts = vec![arr];
+                    ts.extend(rest.into_iter().map(|(_, t)| t));
+                    Tree::Tuple(ts)
+                }
+                _ => {
+                    // the repeats spread over several arrays of different element types
+                    let mut ts: Vec<Tree> = (0..3).map(|k| Tree::Tuple(vec![LEAVES[(li + k) % LEAVES.len()].clone(); n / 2])).collect();
+                    ts.extend(rest.into_iter().map(|(_, t)| t));
+                    Tree::Struct("Multi".into(), TData::Tuple(ts))
+                }
+            }
+        })
+        .boxed()
+}
+
+/// Chains of enum layers through tuple / struct variants (each layer has a payload beside the
+/// next layer), the shape that recursion-depth accounting gets wrong first.
+pub fn arb_deep_variant_chain(max_depth: usize) -> BoxedStrategy<Tree> {
+    (1..=max_depth, any::<bool>(), 0..4usize)
+        .prop_map(|(d, as_struct, li)| {
+            let mut t = LEAVES[li].clone();
+            for i in 0..d {
+                let data = if as_struct ^ (i % 7 == 0) {
+                    TData::Struct(vec![("next".to_string(), t), ("n".to_string(), Tree::U8)])
+                } else {
+                    TData::Tuple(vec![t, Tree::Bool])
+                };
+                t = Tree::Enum("L".into(), vec![("Leaf".into(), TData::Unit), ("Node".into(), data)]);
+            }
+            t
+        })
+        .boxed()
+}
+
+/// Chains of up to `max_depth` wrappers of every container kind (sequence, option, newtype / tuple / named struct,
+/// enum with newtype / tuple / struct variants, string-keyed map, tuple) around a leaf; the wrapper kinds along one
+/// chain are drawn independently, so a single enum layer may sit under a hundred sequences.
+pub fn arb_deep_mixed_chain(max_depth: usize) -> BoxedStrategy<Tree> {
+    (proptest::collection::vec(0..10u8, 1..=max_depth), 0..4usize, prop_oneof![Just(None), (0..10u8).prop_map(Some)])
+        .prop_map(|(kinds, li, uniform)| {
+            let mut t = LEAVES[li].clone();
+            for k in kinds {
+                let k = uniform.unwrap_or(k);
+                t = match k {
+                    0 => Tree::Seq(Box::new(t)),
+                    1 => Tree::Option(Box::new(Tree::Tuple(vec![t, Tree::Bool]))),
+                    2 => Tree::Struct("W".into(), TData::Newtype(Box::new(t))),
+                    3 => Tree::Struct("T".into(), TData::Tuple(vec![Tree::U8, t])),
+                    4 => Tree::Struct("S".into(), TData::Struct(vec![("tag".to_string(), Tree::Bool), ("next".to_string(), t)])),
+                    5 => Tree::Enum("En".into(), vec![("Nil".into(), TData::Unit), ("Wrap".into(), TData::Newtype(Box::new(t)))]),
+                    6 => Tree::Enum("List".into(), vec![("Nil".into(), TData::Unit), ("Cons".into(), TData::Tuple(vec![Tree::U8, t]))]),
+                    7 => Tree::Enum(
+                        "Tr".into(),
+                        vec![("Leaf".into(), TData::Unit), ("Node".into(), TData::Struct(vec![("tag".to_string(), Tree::Bool), ("next".to_string(), t)]))],
+                    ),
+                    8 => Tree::Map(Box::new(Tree::String), Box::new(t)),
+                    _ => Tree::Tuple(vec![t, Tree::U16]),
+                };
+            }
+            t
         })
         .boxed()
 }
